@@ -450,7 +450,7 @@ Lemma acked_counts_x ti tm p q (s : vsock) :
   vs_x ti tm p q (acked_counts_as_sent s) /\ ef strict (acked_counts_as_sent s) /\
   loop_rel s (acked_counts_as_sent s).
 Proof.
-  intros Hx Hef. unfold acked_counts_as_sent. destruct (seq_gt _ _).
+  intros Hx Hef. unfold acked_counts_as_sent. destruct (seq_gt _ _ && seq_lt _ _).
   - split; [exact Hx|]. split; [exact Hef|exact (loop_rel_refl s)].
   - split; [exact Hx|]. split; [exact Hef|apply loop_rel_refl].
 Qed.
